@@ -179,7 +179,16 @@ type verifCfg struct {
 }
 
 // cfg: r=<hex>;n=0;b=0;i=0;w=0;e=<hex>:<hex>;z=<hex>;y=0
-func verifSetCfg(c string) verifCfg {
+// Consecutive operations with the same configuration string form one session: the setters are
+// called once, as the CLI does, so that state kept between lines (if any) is exercised.
+var verifLastCfg = "\x00"
+var verifLastOut verifCfg
+
+func verifSetCfg(c string) (res verifCfg) {
+	if c == verifLastCfg {
+		return verifLastOut
+	}
+	defer func() { verifLastCfg, verifLastOut = c, res }()
 	out := verifCfg{}
 	SetRedactedString(RedactedString)
 	SetRedactNumbers(false)
@@ -553,6 +562,8 @@ func verifRunOp(f []string) (res string) {
 		return fmt.Sprintf("abs %d %d", s, e)
 	case "mappingsize":
 		return strconv.Itoa(len(RedactedFieldMapping))
+	case "tablehash": // FNV-1a of the canonical dump of every operator table (detects in-place mutation)
+		return verifTableHash()
 	}
 	return "badop"
 }
@@ -599,6 +610,17 @@ func verifMetaJSON(v any) any {
 		return map[string]any{"map": arr}
 	}
 	return "?"
+}
+
+func verifTableHash() string {
+	d := []any{verifMetaJSON(CoreOperators), verifMetaJSON(AggregationOperators), verifMetaJSON(SearchOperators),
+		verifMetaJSON(SearchAggregationOperators), verifMetaJSON(OperatorMapDefs), TopLevelSearchOperators}
+	b, _ := json.Marshal(d)
+	h := uint64(14695981039346656037)
+	for _, c := range b {
+		h = (h ^ uint64(c)) * 1099511628211
+	}
+	return fmt.Sprintf("%016x", h)
 }
 
 func verifDumpTables() {
